@@ -106,10 +106,11 @@ static void *tm_worker(void *p) {
 }
 
 int main(int argc, char **argv) {
-  FILE *f; long k, slen, nondet = 0, total = 0, mism = 0, errs = 0, errapi = 0; char *sbuf; int a, t; pthread_t *th; tm_targ *ta; int nsig = 0;
+  FILE *f; long k, slen, nondet = 0, total = 0, mism = 0, errs = 0, errapi = 0; char *sbuf; int a, t, cold = 0; pthread_t *th; tm_targ *ta; int nsig = 0; const char *refresp = NULL, *refmsg = NULL;
   if (argc < 5 || strcmp(argv[1], "run")) { fprintf(stderr, "usage: thrmon run req str report [--threads N --calls M --yield P]\n"); return 2; }
   for (a = 5; a < argc; a++) {
-    if (!strcmp(argv[a], "--threads") && a + 1 < argc) tm_threads = atoi(argv[++a]);
+    if (!strcmp(argv[a], "--ref") && a + 2 < argc) { refresp = argv[++a]; refmsg = argv[++a]; }
+    else if (!strcmp(argv[a], "--threads") && a + 1 < argc) tm_threads = atoi(argv[++a]);
     else if (!strcmp(argv[a], "--calls") && a + 1 < argc) tm_calls = atol(argv[++a]);
     else if (!strcmp(argv[a], "--yield") && a + 1 < argc) tm_yield = atoi(argv[++a]);
     else return 2;
@@ -126,17 +127,30 @@ int main(int argc, char **argv) {
   xe_str = malloc(sizeof(char *) * (xe_nstr + 1));
   { long p = 0; int j = 0; while (p < slen) { xe_str[j++] = sbuf + p; p += strlen(sbuf + p) + 1; } }
   if (tm_n < 1) return 2;
-  /* serial reference */
   tm_ref = calloc(tm_n, sizeof(tm_res));
-  for (k = 0; k < tm_n; k++) tm_exec(&tm_rq[k], &tm_ref[k], NULL);
-  for (k = 0; k < tm_n; k++) { tm_res o; tm_exec(&tm_rq[k], &o, NULL); if (!tm_same(&o, &tm_ref[k])) nondet++; }
+  if (refresp) {
+    /* COLD start: the reference was computed by another process (xrlmon exec), so the very first library calls of this
+     * process happen concurrently - lazily initialised state is raced on, not warmed up by a serial pass */
+    xv_resp *rr = malloc(sizeof(xv_resp) * tm_n); char **msgs = NULL; long nm = 0, am = 0; char line[4096];
+    f = fopen(refresp, "rb"); if (!f || fread(rr, sizeof(xv_resp), tm_n, f) != (size_t)tm_n) return 2; fclose(f);
+    f = fopen(refmsg, "r"); if (!f) return 2;
+    while (fgets(line, sizeof line, f)) { size_t l = strlen(line); if (l && line[l - 1] == '\n') line[l - 1] = 0; if (nm == am) { am = am ? 2 * am : 256; msgs = realloc(msgs, sizeof(char *) * am); } msgs[nm++] = strdup(line); }
+    fclose(f);
+    for (k = 0; k < tm_n; k++) { tm_ref[k].status = rr[k].status; tm_ref[k].code = rr[k].code; tm_ref[k].aux = rr[k].aux; memcpy(tm_ref[k].v, rr[k].v, sizeof rr[k].v);
+      tm_ref[k].mh = (rr[k].msg >= 0 && rr[k].msg < nm) ? xv_fnv(msgs[rr[k].msg], strlen(msgs[rr[k].msg]), XV_FNV0) : 0; }
+    cold = 1;
+  } else {
+    /* serial reference */
+    for (k = 0; k < tm_n; k++) tm_exec(&tm_rq[k], &tm_ref[k], NULL);
+    for (k = 0; k < tm_n; k++) { tm_res o; tm_exec(&tm_rq[k], &o, NULL); if (!tm_same(&o, &tm_ref[k])) nondet++; }
+  }
   xrl_verif_hook = tm_hook;
   th = calloc(tm_threads, sizeof *th); ta = calloc(tm_threads, sizeof *ta);
   for (t = 0; t < tm_threads; t++) { ta[t].tid = t; if (pthread_create(&th[t], NULL, tm_worker, &ta[t])) return 2; }
   for (t = 0; t < tm_threads; t++) pthread_join(th[t], NULL);
   xrl_verif_hook = NULL;
   f = fopen(argv[4], "w"); if (!f) return 2;
-  fprintf(f, "{\"threads\":%d,\"requests\":%ld,\"serial_nondeterministic\":%ld,\"locale\":\"%s\",\"bad\":[", tm_threads, tm_n, nondet, setlocale(LC_ALL, NULL));
+  fprintf(f, "{\"threads\":%d,\"requests\":%ld,\"cold\":%d,\"serial_nondeterministic\":%ld,\"locale\":\"%s\",\"bad\":[", tm_threads, tm_n, cold, nondet, setlocale(LC_ALL, NULL));
   for (t = 0, a = 0; t < tm_threads; t++) { total += ta[t].calls; mism += ta[t].mismatches; errs += ta[t].errors; errapi += ta[t].errapi;
     if (ta[t].first_bad_req >= 0) { const tm_res *r = &tm_ref[ta[t].first_bad_req], *b = &ta[t].bad;
       fprintf(f, "%s{\"thread\":%d,\"request\":%ld,\"fn\":%d,\"ref\":[%d,%d,%.17g,%.17g],\"got\":[%d,%d,%.17g,%.17g]}", a++ ? "," : "", t, ta[t].first_bad_req, tm_rq[ta[t].first_bad_req].fn,
